@@ -226,11 +226,12 @@ def eolKids (src : Bytes) (fl : Flags) (kids : List Child) (sp cur : Nat) : List
     else .text sp e fl.soft fl.hard :: kids
 
 /-- parser.go:1241-1262 after the byte loop: advance the pending bytes, `continue` when that changed the line,
-    else append the Text and `AdvanceLine` -/
+    else append the Text and `AdvanceLine`. Either way the next pass begins at the TOP of the `for` loop, where
+    `escaped = false` (parser.go:1160, repair 24c9f23; a `goto retry` — `ScanRes.hit` — keeps the flag) -/
 def eol (b : Block) (fl : Flags) (l : Nat) (st : St) (sp n : Nat) : St :=
   let rd := if n != 0 then advance b st.rd n else st.rd
-  if l != rd.line then { st with rd := rd }
-  else { st with rd := advanceLine b rd, kids := eolKids b.src fl st.kids sp rd.start }
+  if l != rd.line then { st with rd := rd, escaped := false }
+  else { st with rd := advanceLine b rd, kids := eolKids b.src fl st.kids sp rd.start, escaped := false }
 
 inductive Pass
   | done                      -- PeekLine returned nil: the loop ends
